@@ -151,6 +151,11 @@ func (r *run) render(v reflect.Value) string {
 			fields = append(fields, r.render(v.Field(i)))
 		}
 		return `{"obj":[` + strings.Join(fields, ",") + `]}`
+	case reflect.Array:
+		// arrays of the universe are only ever zero (never inspect them: Huge has 2^61 elements)
+		if id := r.ts.id(t); id >= 0 {
+			return fmt.Sprintf(`{"zero":%d}`, id)
+		}
 	case reflect.Int:
 		if v.Int() == 0 {
 			return fmt.Sprintf(`{"zero":%d}`, pool.IDInt)
